@@ -71,6 +71,7 @@ PROFILES = {
     'requests': {'vehicles': 3, 'p_full_step': 0.8, 'valid_p': 0.9},
     'fleets': {'fleets': ['fa', 'fb'], 'valid_p': 0.6},
     'fullsteps': {'p_full_step': 1.0, 'vehicles': 3, 'valid_p': 0.9},
+    'routes': {'multi_link': True, 'vehicles': 3, 'stations': 1, 'bases': 1, 'deltas': [1, 7, 30, 60, 61, 90], 'valid_p': 0.9, 'p_full_step': 0.4},
     'rawops': {'p_raw': 1.0},
     'rawmix': {'p_raw': 0.25, 'stations': 2, 'bases': 1},
 }
